@@ -1,7 +1,8 @@
 """corr:js-writer — the JavaScript writers of proc_gen/mod.rs (statement separators, hoisted `var` lists, nested scopes, the two identifier
 counters with extend / align) as modelled in GE/Model/JsWriter.lean, replayed on the operations the real generators performed (hook
 `writer_trace`): the replayed text must be the real artefact, every identifier must be allocated from the counter the real code used, and the
-monitor of `GE.JsWriter.monitor_sound` (GE/Thm/C02Writer.lean) must accept the run — then no generated identifier re-uses a name that is
+monitor of `GE.JsWriter.monitor_sound` (GE/Thm/C02Writer.lean) must accept the run, every generated identifier that is written as a piece of text of its own
+must be visible, by the model's ghost account of scopes, where it is written (`uses`: this ties the visible sets the theorem speaks of to what the generators rely on) — then no generated identifier re-uses a name that is
 visible where it is going to be used (no duplicate parameter, no captured outer variable)."""
 import json
 from . import core
@@ -61,8 +62,8 @@ def run(chk, filesets, cap=150):
                 chk.violation("correspondence", "stream js-writer: the recorded writer operations do not have the shape the model reads (a nested top-scope writer "
                               "outside the new / align / function_scope / finish idiom, or an unknown operation)", stream="js-writer", files=small, artefact=what)
             continue
-        # (the artefact text may contain tabs: the flags are the last four fields)
-        parts = ["\t".join(parts[:-4])] + parts[-4:]
+        # (the artefact text may contain tabs: the flags are the last five fields)
+        parts = ["\t".join(parts[:-5])] + parts[-5:]
         flags = dict(x.split("=") for x in parts[1:])
         idents += int(flags.get("idents", "0"))
         if parts[0] != text:
@@ -81,6 +82,14 @@ def run(chk, filesets, cap=150):
         if flags.get("fresh") != "true":
             chk.violation("input", "a generated identifier re-uses a name that is visible where it is used (duplicate parameter or captured outer variable)",
                           files=small, artefact=what, code=text[:1500])
+            continue
+        if flags.get("uses") != "true":
+            # the generators wrote the name of a generated identifier at a place where, by the model's account of scopes, that identifier is not visible:
+            # either a scope defect of the generators (C05) or the model's visible sets are too small (then monitor_sound would be about the wrong sets)
+            nd += 1
+            if nd <= 3:
+                chk.violation("correspondence", "stream js-writer: a generated identifier is written (used) where the writer model does not have it visible",
+                              stream="js-writer-uses", files=small, artefact=what, code=text[:1500])
             continue
         if flags.get("monitor") != "true":
             nd += 1
